@@ -29,7 +29,7 @@ CLAIMS = {
         "Decides structural clauses: the record loop performs exactly one read(64) per iteration whose non-empty result is "
         "yielded unmodified and unconditionally through from_kd_buf and whose emptiness is the only exit (so m records give m "
         "events in order for any record bytes); the thread-map entry layout and count; clear-then-fill of the shared tables "
-        "without rebinding, later entry winning; that a request without filters lists every event the parser yields is taken over from C12's pipeline rules. The header size-class rule reports the greedy zero skipper `_pad` as a known "
+        "without rebinding, later entry winning; two tables are two objects in both constructors (taken over from C14/R2); that a request without filters lists every event the parser yields is taken over from C12's pipeline rules. The header size-class rule reports the greedy zero skipper `_pad` as a known "
         "finding (genuine: it eats leading zero bytes of the first record).",
         "The absolute layout of the 0x11c header bytes before the thread map is not decided; construct's documented sizes are "
         "trusted.",
@@ -58,7 +58,7 @@ CLAIMS = {
         "append-then-pop-then-decode on END, append-and-decode on NONE/ALL, the append loop of each action entered for every record the action gets, domain selection by the trace-family registry, "
         "totality of the qualifier table, the generator yielding exactly the non-None results in order, and - as an ownership "
         "rule over all registered decoders and the parser's other methods - nothing else writes the window tables, and every decoder "
-        "returns a trace on every path that does not test the record's own qualifier; K12: the record list a trace carries is the window itself or an unconditional record-by-record copy of it). The window contents "
+        "returns a trace on every path that does not test the record's own qualifier; K9: whether parse_event_list decodes a list depends on the list only through its first record's code; K12: the record list a trace carries is the window itself or an unconditional record-by-record copy of it). The window contents "
         "as a function of an arbitrary history are not decided: each K is such that breaking it changes the traces of some "
         "history, which the seeded-fault self-test demonstrates.",
         "Histories themselves are not enumerated (that would be a different technique).",
@@ -69,7 +69,7 @@ CLAIMS = {
         "Decides the necessary condition for schedule independence: the only state that outlives one decoder invocation is "
         "either keyed first by the emitting thread's id or one of the frozen by-design global tables; no scalar slot is "
         "written by one invocation and read by another; no module/class-level object is mutated; a name record files its text "
-        "under the pid of the emitting thread's own pending data record (taken over from C14/R4). Equality of per-thread "
+        "under the pid of the emitting thread's own pending data record, and no decoder does anything else to the name table (both taken over from C14/R4). Equality of per-thread "
         "results across interleavings is argued from this, not checked.",
         "The by-design tables (threads_pids, pids_names, global_strings, tids_names, dyld_*) are excluded by the property's own "
         "quantifier; they are frozen in the rule with reasons.",
@@ -84,7 +84,7 @@ CLAIMS = {
         "counts as one; the premise that from_kd_buf rejects a buffer that is not a whole record (whole-buffer struct.unpack of "
         "KEVENT_SIZE bytes, or an explicit length check) is an obligation of its own; a list comprehension over the stream "
         "counts as one - or reordering; print_with_count tests "
-        "the count before printing). Prefix equality itself follows from laziness + determinism and is argued, not checked.",
+        "the count before printing); the framing rules of a version-2 dump (one read(64) per iteration, no seek that moves the stream) are taken over from C02/R1. Prefix equality itself follows from laziness + determinism and is argued, not checked.",
         "Read cost inside construct is trusted to be linear.",
         "DESIGN.md §4 C06"),
     "C07": (
@@ -94,7 +94,7 @@ CLAIMS = {
         "each access is shown to be covered on every path by a membership test of the same key, a length fact, a None test, "
         "iteration over the same table, .get, a dominating store or a matching try/except. This quantifies over all "
         "histories because the facts do not depend on which records were seen. Truthiness of a key is not accepted as "
-        "membership. The facade's line builders index the shared thread / process tables only under a membership test or "
+        "membership. An index that is a conditional expression is judged per alternative. The facade's line builders index the shared thread / process tables only under a membership test or "
         "through .get.",
         "Enum(x) for undeclared x and .decode() of invalid text are outside the property's premise; windows are non-empty by "
         "C04 so events[0]/events[-1]/ktraces[0] are not tracked; non-constant indexes (bisect results) are C15's.",
@@ -106,7 +106,7 @@ CLAIMS = {
         "whole data, left to right, NULs removed, ids from the START record; continuation records cannot avoid becoming traces "
         "(reported as four known findings - genuine); in all 66 path-taking decoders the looked-up paths appear in lookup "
         "order, the second path computed from the records not consumed by the first; a decoder that joins the payloads of its "
-        "window may select records only by their code, not by a field that differs between START / continuation / END; that the lookup decoder returns a trace for every record it is given is taken over from C04/K11. Byte-exact text for each length is not "
+        "window may select records only by their code, not by a field that differs between START / continuation / END; that the lookup decoder returns a trace for every record it is given is taken over from C04/K11; for calls whose first path argument the kernel never resolves (a table of Darwin facts) a window with one lookup shows it as the last path argument; no decoder locates part of its window by counting another lookup's records. Byte-exact text for each length is not "
         "decided.",
         "Chunk boundary arithmetic (24 + 32k) is the kernel's and is not modelled.",
         "DESIGN.md §4 C08"),
@@ -142,7 +142,7 @@ CLAIMS = {
         "The ioctl split is shown to be the exact inverse of _IOC with disjoint fields covering 32 bits; the fields a "
         "decoder cuts out of one record word by shifts and masks are shown pairwise disjoint; a zero-valued member named "
         "explicitly is shown exactly when the word is zero; a member looked up in a table by a loop-narrowed rest of the word is shown "
-        "to miss for words with undeclared bits. A member whose value is imported from outside the package is reported (the host's value is not Darwin's on every host); one that cannot be evaluated is exit 2.",
+        "to miss for words with undeclared bits. A member whose value is imported from outside the package is reported (the host's value is not Darwin's on every host); one that cannot be evaluated is exit 2. A word cut to a width before a member selection keeps every bit of every declared member.",
         "Reference values are transcriptions of XNU headers (vstatic/oracles/darwin.py). The access-mode selection loop of "
         "serialize_open_flags (first match wins + for/else) is not decided for the undefined value 3.",
         "DESIGN.md §4 C11"),
@@ -166,7 +166,7 @@ CLAIMS = {
         "the tool adds on its own is consumed but post-filtered under exactly the same condition, which contains 'not "
         "requested by the caller'; helper conditions equal the specification; process filter predicate equals the "
         "specification; request isolation (the shared tables are cleared unconditionally when a dump's thread map is installed) "
-        "is taken over from C02/R4, the reviewed set of writers of the thread tables from C14/R4. Textual equality with an unfiltered run is not decided.",
+        "is taken over from C02/R4, the reviewed set of writers of the thread tables from C14/R4, that no decoder counts records of other classes from C08/R6. Textual equality with an unfiltered run is not decided.",
         "Trusts filter() semantics and the interpreter; equality of filtered and unfiltered trace text is argued from "
         "C04/C05-style locality, not checked.",
         "DESIGN.md §4 C13"),
@@ -186,7 +186,7 @@ CLAIMS = {
         "Decides structural clauses: only insert_image writes the parallel lists, at one bisect index, after the duplicate "
         "test; lookup is bisect_right - 1 guarded by >= 0 with identity and base read at the same index; frames are the chained "
         "four words of all nested stack-data records truncated to the first header's count, gated on the flag and the header; "
-        "one callstack per qualifying trace stamped from the START record. Order independence follows from sortedness "
+        "one callstack per qualifying trace stamped from the START record; no decoder of another record kind returns a subclass of a class feed_generator tests with isinstance. Order independence follows from sortedness "
         "(argued).",
         "bisect semantics trusted.",
         "DESIGN.md §4 C15"),
@@ -249,7 +249,7 @@ CLAIMS["C20"] = (
     "those records is evaluated for every id of the bundled code table: every RealFaultAddress* code with a registered decoder "
     "is picked and no code outside that group; launch image list = sorted by "
     "load address over every nested image-map and shared-cache-map record; sampler thread info / user stack present exactly "
-    "when the flag is set and the record exists, None otherwise.",
+    "when the flag is set and the record exists, None otherwise. That parse_event_list decodes the nested list whatever its later records are is taken over from C04/K9.",
     "Behaviour under unrelated interleaved records beyond the selection predicates is not decided; the real-fault selection "
     "is by id (judged against the bundled table, not a supplied one).",
     "DESIGN.md §4 C20")
